@@ -1160,6 +1160,8 @@ class Exec:
                 c = z3.Const(fresh_name("concat"), l.ty.sort)
                 i = z3.Int(fresh_name("ki"))
                 la, lb = z3.Length(l.e), z3.Length(r.e)
+                xm = z3.Const(fresh_name("xm"), l.ty.elem.sort)
+                st2 = st2.assume(mem_all_indices(c), z3.ForAll([xm], seq_mem_z3(c, xm) == z3.Or(seq_mem_z3(l.e, xm), seq_mem_z3(r.e, xm))))
                 st2 = st2.assume(c == z3.Concat(l.e, r.e), z3.Length(c) == la + lb,
                                  z3.ForAll([i], z3.Implies(z3.And(i >= 0, i < la), c[i] == l.e[i])),
                                  z3.ForAll([i], z3.Implies(z3.And(i >= la, i < la + lb), c[i] == r.e[i - la])))
@@ -1550,6 +1552,8 @@ class Exec:
                  z3.ForAll([i], z3.Implies(z3.And(0 <= i, i < n), mem(ks[i]))),
                  z3.ForAll([i, j], z3.Implies(z3.And(0 <= i, i < j, j < n), ks[i] != ks[j])),
                  n == card(coll)] + card_axioms_for([coll])
+        facts.append(mem_all_indices(ks))
+        facts.append(z3.ForAll([k], seq_mem_z3(ks, k) == mem(k)))
         st2 = st.assume(*facts)
         if kind in ("set", "keys"):
             yield Sym(SeqTy(kt), ks), st2
@@ -1557,8 +1561,13 @@ class Exec:
         vt = coll.ty.val
         if kind == "values":
             vs = z3.Const(fresh_name("vals"), z3.SeqSort(vt.sort))
+            xv = z3.Const(fresh_name("xv"), vt.sort)
+            kw = z3.Const(fresh_name("kw"), kt.sort)
             st2 = st2.assume(z3.Length(vs) == n,
-                             z3.ForAll([i], z3.Implies(z3.And(0 <= i, i < n), vs[i] == coll.ty.opt.val(z3.Select(coll.e, ks[i])))))
+                             z3.ForAll([i], z3.Implies(z3.And(0 <= i, i < n), vs[i] == coll.ty.opt.val(z3.Select(coll.e, ks[i])))),
+                             mem_all_indices(vs),
+                             z3.ForAll([xv], z3.Implies(seq_mem_z3(vs, xv), z3.Exists([kw], z3.And(
+                                 mem(kw), coll.ty.opt.val(z3.Select(coll.e, kw)) == xv)))))
             yield Sym(SeqTy(vt), vs), st2
             return
         tt = TupleTy([kt, vt])
